@@ -223,10 +223,15 @@ Fixpoint srun (log : list (nat * slabel)) (s : sst) : option sst :=
   | (t, l) :: r => match sstep t l s with Some s' => srun r s' | None => None end
   end.
 
-(* a fresh write transaction; `pre` = savepoints that are valid already (taken by earlier transactions) *)
-Definition sinit (pre : list N) : sst :=
+(* a fresh write transaction; `pre` = savepoints that are valid already (taken by earlier transactions; their
+   handles carry the same numbers); `tabs` = tables that exist already with their committed contents *)
+Definition seed_table (x : N * list (N * N)) : N * table :=
+  (fst x, {| tb_map := snd x; tb_pages := []; tb_owner := None |}).
+Definition sinit_tables (pre : list N) (tabs : list (N * list (N * N))) : sst :=
   {| s_dirty := false; s_tracking := true; s_lock := None; s_valid := pre; s_next_sp := 100; s_pins := map (fun _ => 1) pre;
-     s_base := 1; s_tables := []; s_next_page := 1; s_tracked := []; s_at := []; s_handles := []; s_results := [] |}.
+     s_base := 1; s_tables := map seed_table tabs; s_next_page := 1; s_tracked := []; s_at := [];
+     s_handles := map (fun x => (x, x)) pre; s_results := [] |}.
+Definition sinit (pre : list N) : sst := sinit_tables pre [].
 
 (* the specification of one table: its own operations, applied in order *)
 Definition apply_call (tb : N) (m : list (N * N)) (c : scall) : list (N * N) :=
@@ -237,8 +242,9 @@ Definition apply_call (tb : N) (m : list (N * N)) (c : scall) : list (N * N) :=
   end.
 Definition own_stream (tb : N) (log : list (nat * slabel)) : list scall :=
   flat_map (fun e => match snd e with LEnter c => [c] | _ => [] end) log.
-Definition spec_table (tb : N) (log : list (nat * slabel)) : list (N * N) :=
-  fold_left (apply_call tb) (own_stream tb log) [].
+Definition spec_table_from (m0 : list (N * N)) (tb : N) (log : list (nat * slabel)) : list (N * N) :=
+  fold_left (apply_call tb) (own_stream tb log) m0.
+Definition spec_table (tb : N) (log : list (nat * slabel)) : list (N * N) := spec_table_from [] tb log.
 Definition table_map (s : sst) (tb : N) : list (N * N) :=
   match tget tb (s_tables s) with Some t => tb_map t | None => [] end.
 Definition table_pages (s : sst) (tb : N) : list N :=
